@@ -6,4 +6,6 @@ unset RUSTFLAGS CARGO_ENCODED_RUSTFLAGS
 export CARGO_TARGET_DIR="$(pwd)/target"
 cargo +nightly miri --version >/dev/null 2>&1 || { echo "miri not available"; exit 0; }
 cargo +nightly miri setup >/dev/null 2>&1 || true
+# warm the dependency cache so that the first check does not pay for it
+MIRIFLAGS="-Zmiri-disable-isolation" cargo +nightly miri run >/dev/null 2>&1 || true
 exit 0
